@@ -11,6 +11,14 @@ CLAIMED = {
             "Correspondence of the Lean L1 model of tape.rs/machine.rs with the real run_quick_machine (full result record and per-cycle tapes through the guarded hook) plus an L0 cell-by-cell oracle run on every answer. Proof level pending BB/Props/C01.",
             "Trusted: Lean compiler for the driver, vlib orchestration, rustc; oracle budget 2e7 base steps.",
             "Lean 4 model + differential correspondence + L0 oracle", "5/C01"),
+    "C12": ("exploration",
+            "Correspondence of the Lean model of tape.rs with the real Tape on exhaustive short and random long step sequences (all observers after every step), plus a cell-level replay oracle. Proof level pending BB/Props/C12.",
+            "Trusted: Lean compiler for the driver, vlib orchestration (incl. the cell-level replay), rustc.",
+            "Lean 4 model + differential correspondence + cell-level oracle", "5/C12"),
+    "C13": ("exploration",
+            "Correspondence of the Lean model of instrs.rs parsing/printing with the real tcompile/show_comp/read_*/show_* on every token and random tables, judged against the generator's own table; malformed stream compared code-vs-model. Proof level pending BB/Props/C13.",
+            "Trusted: Lean compiler for the driver, vlib orchestration, rustc.",
+            "Lean 4 model + differential correspondence + generator oracle", "5/C13"),
 }
 
 ALL = ["C%02d" % i for i in range(1, 19)]
